@@ -100,13 +100,16 @@ def check_B(ctx, ns):
         e1.report(ctx, "bpm-value-packed", text, PROBE_SRC, [[exp, [[0, 4, 4]], []]], got if len(str(got)) < 500 else str(got)[:500], "value %d is mis-decoded or rejected only inside the packed chart (line %d)" % (n, bad))
 
 
+DECODED_SRC = "def probe(c):\n    return 'decoded'   # the chart must load (every line of it is well-formed)"
+
+
 def check_lines(ctx, lines, exp_ts, exp_a, what, res=960, tempo=("0 = B 1000000000",), exp_b=None, song_extra=()):
     text = mk(res=res, sync=["0 = TS 4"] + list(tempo) + lines, song_extra=list(song_extra))
     got = e1.run_probe(probe, text)
     ctx.case(text, sample=lambda: dict(lines=lines, expected_ts=exp_ts, expected_anchors=exp_a))
     ctx.evaluations += len(lines)
     if got[:1] == ["raises"]:
-        e1.report(ctx, "sync-line", text, PROBE_SRC, [["<decoded>"]], got, "%s: rejected, lines %r" % (what, lines))
+        e1.report(ctx, "sync-line", text, DECODED_SRC, ["decoded"], got, "%s: rejected, lines %r" % (what, lines), extra_case=dict(must_not_raise=True))
         return
     acc_ts = [[0, 4, 4]] + exp_ts
     if got[1] != acc_ts or got[2] != exp_a or (exp_b is not None and got[0] != exp_b):
@@ -249,6 +252,8 @@ def run_shard(shard, ctx):
 
 
 def replay(case):
+    if case.get("must_not_raise"):
+        return e1.replay_text_case(case, e1.compile_probe(DECODED_SRC), "sync-line", DECODED_SRC)
     if "shape" in case:
         return e1.replay_model_case(case, "sync-line-at-block-boundary")
     return e1.replay_text_case(case, probe, "sync-line", PROBE_SRC)
